@@ -760,7 +760,8 @@ def p6(ctx, R):
 
     def parent_fact(want):
         def pred(fc):
-            e, pol = fact_atom(fc)
+            from sa.util import presence_fact
+            e, pol = presence_fact(fc)
             is_parent = (isinstance(e, ast.Attribute) and e.attr == "parent") or (isinstance(e, ast.Name) and e.id in parent_names)
             return is_parent and pol is want
         return pred
@@ -920,6 +921,10 @@ def g4(ctx, R):
                 and st.value.func.attr in ("append", "extend") and st.value.args:
             tg = st.value.func.value  # <container>[<slot>].append(value)
             val = st.value.args[0]
+            if isinstance(tg, ast.Call) and isinstance(tg.func, ast.Attribute) and tg.func.attr == "setdefault" and len(tg.args) == 2 \
+                    and isinstance(tg.args[1], ast.List) and not tg.args[1].elts:
+                # <container>.setdefault(<slot>, []).append(value): the same store, the empty list made on first use
+                tg = ast.copy_location(ast.Subscript(value=tg.func.value, slice=tg.args[0], ctx=ast.Store()), tg)
         else:
             continue
         if not (isinstance(tg, ast.Subscript) and isinstance(tg.value, ast.Attribute) and tg.value.attr in ("arguments", "extra_arguments")):
